@@ -645,6 +645,7 @@ structure DenseOK (s : DStore) : Prop where
   outside : ∀ i, (i < s.minIndex ∨ s.maxIndex < i) → wt s i = 0
   window : s.count ≠ 0 → s.offset ≤ s.minIndex ∧ s.minIndex ≤ s.maxIndex ∧
     s.maxIndex < s.offset + s.len
+  emptyWin : s.count = 0 → s.maxIndex < s.minIndex
   range : s.count ≠ 0 → Idx32 s.minIndex ∧ Idx32 s.maxIndex
   wok : ∀ j, WOK (wt s j)
 
@@ -667,21 +668,34 @@ theorem encodeDense_cases (s : DStore) (side : Side) (hne : s.isEmpty = false) (
   · right
     rw [hd]; rfl
 
-theorem storeEncodes_dense (s : DStore) (c : Content) (hr : (Store.d s).Refines c)
-    (hd : DenseOK s) (side : Side) : StoreEncodes (.d s) side c := by
+theorem DenseOK.content_spec {s : DStore} (hd : DenseOK s) :
+    s.binsList = some (DStore.content s) ∧ (DStore.content s).WF ∧
+      ∀ j, (DStore.content s).lookup j = wt s j := by
+  apply DStore.content_spec_gen s hd.nonneg hd.outside
+  intro idx h1 h2
+  by_cases h0 : s.count = 0
+  · have := hd.emptyWin h0
+    omega
+  · obtain ⟨w1, w2, w3⟩ := hd.window h0
+    unfold DStore.len at w3
+    omega
+
+/-- the dense encoder (either layout) writes blocks that denote any content with `lookup = wt` -/
+theorem encodeDense_denotes (s : DStore) (hd : DenseOK s) (c : Content)
+    (hlook : ∀ j, c.lookup j = wt s j) (side : Side) :
+    ∃ bl, Sketch.encodeStore (.d s) side = some (.d s, bl) ∧
+      (∀ b ∈ bl, b.WF ∧ b.FiniteWeights ∧ IsBins side b) ∧
+      Denotes (sideBins (interp bl) side) c := by
   by_cases h0 : s.count = 0
   · -- empty: no block
     have he : s.isEmpty = true := (DStore.isEmpty_iff_count s).2 h0
-    have hc : c = [] := by
-      have := hr.empty
-      rw [show (Store.d s).isEmpty = s.isEmpty from rfl, he] at this
-      cases c with
-      | nil => rfl
-      | cons p c => simp [Content.isEmpty] at this
-    subst hc
-    refine ⟨.d s, [], ?_, hr, by simp, ?_⟩
+    refine ⟨[], ?_, by simp, ?_⟩
     · simp [Sketch.encodeStore, Sketch.encodeDense, he]
-    · rw [sideBins_nil]; exact Denotes.nil
+    · rw [sideBins_nil]
+      refine ⟨[], rfl, by simp, fun j => ?_⟩
+      have := hd.emptyWin h0
+      rw [hlook, hd.outside j (by omega)]
+      rfl
   · have hne : s.isEmpty = false := by
       cases h : s.isEmpty with
       | false => rfl
@@ -696,13 +710,6 @@ theorem storeEncodes_dense (s : DStore) (c : Content) (hr : (Store.d s).Refines 
       intro idx h1 h2
       unfold DStore.len at w3
       omega
-    -- the content is the window
-    obtain ⟨hb, _, hlk⟩ := DStore.content_spec_gen s hd.nonneg hd.outside hin
-    have hcc : c = DStore.content s := by
-      have := hr.bins
-      rw [show (Store.d s).binsList = s.binsList from rfl, hb] at this
-      exact (Option.some.inj this).symm
-    have hlook : ∀ j, c.lookup j = wt s j := by rw [hcc]; exact hlk
     -- the counts read by the encoder
     obtain ⟨n, hn⟩ : ∃ n, n = (s.maxIndex - s.minIndex + 1).toNat := ⟨_, rfl⟩
     have hnlt : n < W64 := by
@@ -746,7 +753,7 @@ theorem storeEncodes_dense (s : DStore) (c : Content) (hr : (Store.d s).Refines 
       obtain ⟨b1, b2, b3⟩ := contiguous_block side s.minIndex r1 ((irange s.minIndex n).map (wt s))
         (by rw [List.length_map]; simpa [irange] using hnlt)
         (fun y hy => by obtain ⟨i, _, rfl⟩ := List.mem_map.1 hy; exact hd.wok i)
-      refine ⟨.d s, _, by simp only [Sketch.encodeStore, he, Option.map_some]; rfl, hr, ?_, ?_⟩
+      refine ⟨_, by simp only [Sketch.encodeStore, he, Option.map_some]; rfl, ?_, ?_⟩
       · intro b hb'
         rw [List.mem_singleton] at hb'
         subst hb'
@@ -766,13 +773,23 @@ theorem storeEncodes_dense (s : DStore) (c : Content) (hr : (Store.d s).Refines 
           have h2 : (irange s.minIndex n).length = n := by simp [irange]
           omega)
         (fun p hp => hkeys p (hsub p hp)) (fun p hp => hwok p (hsub p hp))
-      refine ⟨.d s, _, by simp only [Sketch.encodeStore, he, Option.map_some]; rfl, hr, ?_, ?_⟩
+      refine ⟨_, by simp only [Sketch.encodeStore, he, Option.map_some]; rfl, ?_, ?_⟩
       · intro b hb'
         rw [List.mem_singleton] at hb'
         subst hb'
         exact ⟨b1, b2, _, rfl⟩
       · rw [b3]
         exact ⟨_, rfl, fun p hp => hnn p (hsub p hp), fun j => by rw [lookup_filter_ne_zero, hL]⟩
+
+theorem storeEncodes_dense (s : DStore) (c : Content) (hr : (Store.d s).Refines c)
+    (hd : DenseOK s) (side : Side) : StoreEncodes (.d s) side c := by
+  obtain ⟨hb, _, hlk⟩ := hd.content_spec
+  have hcc : c = DStore.content s := by
+    have := hr.bins
+    rw [show (Store.d s).binsList = s.binsList from rfl, hb] at this
+    exact (Option.some.inj this).symm
+  obtain ⟨bl, h1, h2, h3⟩ := encodeDense_denotes s hd c (by rw [hcc]; exact hlk) side
+  exact ⟨_, bl, h1, hr, h2, h3⟩
 
 /-! ### the three dense kinds meet `DenseOK` -/
 
@@ -781,6 +798,9 @@ theorem denseOK_of_inv (s : DStore) (h : DStore.Inv s) (hb : DStore.Bounded32 s)
   nonneg := h.wt_nonneg
   outside := h.outside
   window := fun h0 => let ⟨a, b, c, _, _⟩ := h.window h0; ⟨a, b, c⟩
+  emptyWin := fun h0 => by
+    obtain ⟨_, a, b⟩ := h.empty h0
+    rw [a, b]; decide
   range := fun h0 =>
     ⟨hb _ (DStore.tight_min s h hb h0).ne', hb _ (DStore.tight_max s h hb h0).ne'⟩
   wok := hw
@@ -790,6 +810,9 @@ theorem denseOK_of_invLow (N : Nat) (s : DStore) (h : DStore.InvLow N s) (ht : D
   nonneg := h.wt_nonneg
   outside := h.outside
   window := h.window
+  emptyWin := fun h0 => by
+    obtain ⟨_, a, b, _⟩ := h.empty h0
+    rw [a, b]; decide
   range := fun h0 => by
     obtain ⟨_, _, a, b⟩ := ht h0
     obtain ⟨_, c, _⟩ := h.window h0
@@ -802,6 +825,9 @@ theorem denseOK_of_invHigh (N : Nat) (s : DStore) (h : DStore.InvHigh N s) (ht :
   nonneg := h.wt_nonneg
   outside := h.outside
   window := h.window
+  emptyWin := fun h0 => by
+    obtain ⟨_, a, b, _⟩ := h.empty h0
+    rw [a, b]; decide
   range := fun h0 => by
     obtain ⟨_, _, a, b⟩ := ht h0
     obtain ⟨_, c, _⟩ := h.window h0
@@ -1110,6 +1136,610 @@ theorem storeEncodes_pag (s : PStore) (hp : PagOK s) (side : Side) :
       simp only [List.isEmpty_cons, Bool.false_eq_true, if_false]
       rw [← hb]
       exact (deltas_block side s'.buffer (by omega) hI'.bufRange).2.2
+
+/-! ## any store kind -/
+
+/-- what the encoder needs of a store, kind by kind -/
+def EncOK : Store → Prop
+  | .sp c => Keys32 c ∧ ∀ p ∈ c, WOK p.2
+  | .d s => DenseOK s
+  | .pg s => PagOK s
+
+theorem storeEncodes (st : Store) (c : Content) (hr : st.Refines c) (h : EncOK st) (side : Side) :
+    StoreEncodes st side c := by
+  cases st with
+  | sp c' =>
+    have hcc : c' = c := Option.some.inj hr.bins
+    subst hcc
+    exact storeEncodes_sparse c' hr.wf h.2 h.1 side
+  | d s => exact storeEncodes_dense s c hr h side
+  | pg s =>
+    have hcc : PStore.content s = c := Option.some.inj hr.bins
+    obtain ⟨s', _, hI', hcont, bl, h1, h2, h3⟩ := storeEncodes_pag s h side
+    refine ⟨.pg s', bl, h1, ?_, h2, hcc ▸ h3⟩
+    rw [← hcc, ← hcont]
+    exact refines_pag s' hI'
+
+/-! ## the whole sketch -/
+
+/-- `s.encode om` succeeded with `(s', bl)`; `bl` is zero block, mapping block, positive bins,
+    negative bins, and the bins denote the two contents -/
+def EncodesTo (s : Sketch) (cp cn : Content) (m : MapId) (z : Rat) (om : Bool) (s' : Sketch)
+    (bl : List Block) : Prop :=
+  ∃ pb nb, bl = sketchBlocks m om z pb nb ∧ s.encode om = some (s', bl) ∧
+    s'.Refines cp cn ∧ s'.mapping = some m ∧ s'.zero = .fin z ∧
+    (∀ b ∈ pb, b.WF ∧ b.FiniteWeights ∧ IsBins .pos b) ∧
+    (∀ b ∈ nb, b.WF ∧ b.FiniteWeights ∧ IsBins .neg b) ∧
+    Denotes (sideBins (interp pb) .pos) cp ∧ Denotes (sideBins (interp nb) .neg) cn
+
+theorem encode_ok (s : Sketch) (cp cn : Content) (hs : s.Refines cp cn)
+    (hp : EncOK s.pos) (hn : EncOK s.neg) (m : MapId) (hm : s.mapping = some m)
+    (z : Rat) (hz : s.zero = .fin z) (om : Bool) :
+    ∃ s' bl, EncodesTo s cp cn m z om s' bl := by
+  obtain ⟨p, pb, e1, r1, w1, d1⟩ := storeEncodes s.pos cp hs.pos hp .pos
+  obtain ⟨n, nb, e2, r2, w2, d2⟩ := storeEncodes s.neg cn hs.neg hn .neg
+  exact ⟨_, _, pb, nb, rfl, encode_eq s m z om p n pb nb hm hz e1 e2, ⟨r1, r2⟩, hm, hz, w1, w2, d1, d2⟩
+
+theorem EncodesTo.wf {s cp cn m z om s' bl} (h : EncodesTo s cp cn m z om s' bl) :
+    ∀ b ∈ bl, b.WF := by
+  obtain ⟨pb, nb, rfl, _, _, _, _, w1, w2, _, _⟩ := h
+  exact sketchBlocks_wf m om z pb nb (fun b hb => (w1 b hb).1) (fun b hb => (w2 b hb).1)
+
+theorem EncodesTo.finite {s cp cn m z om s' bl} (h : EncodesTo s cp cn m z om s' bl) :
+    ∀ b ∈ bl, b.FiniteWeights := by
+  obtain ⟨pb, nb, rfl, _, _, _, _, w1, w2, _, _⟩ := h
+  intro b hb
+  unfold sketchBlocks zeroBlocks mapBlocks at hb
+  simp only [List.mem_append] at hb
+  rcases hb with ((hb | hb) | hb) | hb
+  · split at hb
+    · simp at hb
+    · rw [List.mem_singleton] at hb; subst hb; trivial
+  · split at hb
+    · simp at hb
+    · rw [List.mem_singleton] at hb; subst hb; trivial
+  · exact (w1 b hb).2.1
+  · exact (w2 b hb).2.1
+
+/-- the fold of the encoded blocks over any spec receiver that accepts the mapping -/
+theorem EncodesTo.applyBlocks {s cp cn m z om s' bl} (h : EncodesTo s cp cn m z om s' bl)
+    (hm : MapOK m) (hz : WOK z) (m0 : Option MapId)
+    (hm0 : if om then m0 = some m else Accepts m0 m)
+    (a b : Content) (ha : a.WF) (hb : b.WF) (z0 : F64) (aux : DecAux) :
+    Sketch.applyBlocks (Sketch.spec m0 a b z0) aux bl =
+      some (.ok (Sketch.spec (some m) (a.merge cp) (b.merge cn) (zeroAfter z0 z), aux)) := by
+  obtain ⟨pb, nb, rfl, _, r, _, _, w1, w2, d1, d2⟩ := h
+  exact applyBlocks_sketchBlocks m hm om z hz pb nb cp cn r.pos.wf r.neg.wf
+    (fun b hb => (w1 b hb).2.2) (fun b hb => (w2 b hb).2.2) d1 d2 m0 hm0 a b ha hb z0 aux
+
+/-- decoding the encoded bytes into any spec receiver that accepts the mapping: a merge -/
+theorem EncodesTo.decode {s cp cn m z om s' bl} (h : EncodesTo s cp cn m z om s' bl)
+    (hm : MapOK m) (hz : WOK z) (m0 : Option MapId)
+    (hm0 : if om then m0 = some m else Accepts m0 m)
+    (a b : Content) (ha : a.WF) (hb : b.WF) (z0 : F64) :
+    Sketch.decodeAndMergeWith (Sketch.spec m0 a b z0) (encBlocks bl) =
+      some (.ok (Sketch.spec (some m) (a.merge cp) (b.merge cn) (zeroAfter z0 z))) :=
+  decodeAndMergeWith_encBlocks _ _ _ bl h.wf
+    (h.applyBlocks hm hz m0 hm0 a b ha hb z0 { stats := none }) rfl
+
+theorem zeroAfter_zero (z : Rat) (hz : WOK z) : zeroAfter (.fin 0) z = .fin z := by
+  unfold zeroAfter
+  split
+  · rename_i h; rw [h]
+  · have := F64.add_exact 0 z (by rw [zero_add]; exact hz.1)
+    rwa [zero_add] at this
+
+theorem zeroAfter_exact (q0 z : Rat) (h : F64.add (.fin q0) (.fin z) = .fin (q0 + z)) :
+    zeroAfter (.fin q0) z = .fin (q0 + z) := by
+  unfold zeroAfter
+  split
+  · rename_i h0; rw [h0, add_zero]
+  · exact h
+
+/-! ## concatenation -/
+
+theorem applyBlock_stats_none (s s' : Sketch) (aux aux' : DecAux) (b : Block)
+    (ha : aux.stats = none) (h : Sketch.applyBlock s aux b = some (.ok (s', aux'))) :
+    aux'.stats = none := by
+  cases b with
+  | mapping sub g o =>
+    simp only [Sketch.applyBlock] at h
+    split at h
+    · simp at h
+    · simp only [Option.some.injEq, Except.ok.injEq, Prod.mk.injEq] at h; rw [← h.2]; exact ha
+  | bins side p =>
+    cases side <;>
+    · simp only [Sketch.applyBlock] at h
+      split at h
+      · simp at h
+      · simp only [Option.some.injEq, Except.ok.injEq, Prod.mk.injEq] at h; rw [← h.2]; exact ha
+  | zeroCount x =>
+    simp only [Sketch.applyBlock, Option.some.injEq, Except.ok.injEq, Prod.mk.injEq] at h
+    rw [← h.2]; exact ha
+  | _ =>
+    simp only [Sketch.applyBlock, Option.some.injEq, Except.ok.injEq, Prod.mk.injEq] at h
+    rw [← h.2]; simp [ha]
+
+theorem applyBlocks_stats_none (bl : List Block) (s s' : Sketch) (aux aux' : DecAux)
+    (ha : aux.stats = none) (h : Sketch.applyBlocks s aux bl = some (.ok (s', aux'))) :
+    aux'.stats = none := by
+  induction bl generalizing s aux with
+  | nil =>
+    simp only [Sketch.applyBlocks, Option.some.injEq, Except.ok.injEq, Prod.mk.injEq] at h
+    rw [← h.2]; exact ha
+  | cons b bl ih =>
+    simp only [Sketch.applyBlocks] at h
+    cases hb : Sketch.applyBlock s aux b with
+    | none => rw [hb] at h; simp at h
+    | some r =>
+      cases r with
+      | error e => rw [hb] at h; simp at h
+      | ok r =>
+        rw [hb] at h
+        exact ih r.1 r.2 (applyBlock_stats_none s r.1 aux r.2 b ha hb) h
+
+/-- the loop on the concatenation of two encoded streams: the fold of the second block list started
+    from the result of the first (any store kind, any statistics state) -/
+theorem decodeLoop_concat (bl₁ bl₂ : List Block) (h₁ : ∀ b ∈ bl₁, b.WF) (h₂ : ∀ b ∈ bl₂, b.WF)
+    (fuel : Nat) (hf : bl₁.length + bl₂.length ≤ fuel) (s : Sketch) (aux : DecAux) :
+    Sketch.decodeLoop fuel s aux (encBlocks bl₁ ++ encBlocks bl₂) =
+      Sketch.andThen (Sketch.applyBlocks s aux bl₁)
+        (fun s' aux' => Sketch.applyBlocks s' aux' bl₂) := by
+  rw [← encBlocks_append, Sketch.decodeLoop_encBlocks (bl₁ ++ bl₂)
+    (fun b hb => (List.mem_append.1 hb).elim (h₁ b) (h₂ b)) fuel
+    (by rw [List.length_append]; exact hf), applyBlocks_append]
+
+theorem decodeAndMergeWith_ok_inv (s s₁ : Sketch) (bl : List Block) (hwf : ∀ b ∈ bl, b.WF)
+    (h : Sketch.decodeAndMergeWith s (encBlocks bl) = some (.ok s₁)) :
+    Sketch.applyBlocks s { stats := none } bl = some (.ok (s₁, { stats := none })) := by
+  have hl := encBlocks_length_ge bl
+  unfold Sketch.decodeAndMergeWith at h
+  rw [Sketch.decodeLoop_encBlocks bl hwf _ (by omega)] at h
+  cases ha : Sketch.applyBlocks s { stats := none } bl with
+  | none => rw [ha] at h; simp at h
+  | some r =>
+    cases r with
+    | error e => rw [ha] at h; simp at h
+    | ok r =>
+      obtain ⟨s2, aux2⟩ := r
+      rw [ha] at h
+      simp only at h
+      split at h
+      · simp at h
+      · simp only [Option.some.injEq, Except.ok.injEq] at h
+        subst h
+        have := applyBlocks_stats_none bl s s2 _ aux2 rfl ha
+        cases aux2
+        simp only at this
+        rw [this]
+
+/-- decoding a concatenation = decoding the second stream into the result of the first -/
+theorem decode_concat (bl₁ bl₂ : List Block) (h₁ : ∀ b ∈ bl₁, b.WF) (h₂ : ∀ b ∈ bl₂, b.WF)
+    (s s₁ : Sketch) (hd : Sketch.decodeAndMergeWith s (encBlocks bl₁) = some (.ok s₁)) :
+    Sketch.decodeAndMergeWith s (encBlocks bl₁ ++ encBlocks bl₂) =
+      Sketch.decodeAndMergeWith s₁ (encBlocks bl₂) := by
+  have ha := decodeAndMergeWith_ok_inv s s₁ bl₁ h₁ hd
+  have l1 := encBlocks_length_ge bl₁
+  have l2 := encBlocks_length_ge bl₂
+  unfold Sketch.decodeAndMergeWith
+  rw [decodeLoop_concat bl₁ bl₂ h₁ h₂ _ (by rw [List.length_append]; omega), ha,
+    Sketch.decodeLoop_encBlocks bl₂ h₂ _ (by omega)]
+  rfl
+
+/-! ## the exact-summary variant -/
+
+/-- the statistics blocks `XSketch.encode` puts in front of the sketch blocks -/
+def statBlocks (st : Summary) : List Block :=
+  (if F64.ne st.count (.fin 0) then [.count (Sketch.vfBitsF st.count)] else []) ++
+  (if F64.ne st.getSum (.fin 0) then [.sum st.getSum.toBits.toNat] else []) ++
+  (if F64.ne st.min .pinf then [.min st.min.toBits.toNat] else []) ++
+  (if F64.ne st.max .ninf then [.max st.max.toBits.toNat] else [])
+
+theorem xencode_eq (x : XSketch) (om : Bool) :
+    x.encode om = (x.sk.encode om).map (fun r => ({ x with sk := r.1 }, statBlocks x.st ++ r.2)) := by
+  unfold XSketch.encode statBlocks
+  cases x.sk.encode om with
+  | none => rfl
+  | some r => obtain ⟨sk, bl⟩ := r; simp
+
+theorem statBlocks_wf (st : Summary) : ∀ b ∈ statBlocks st, b.WF := by
+  intro b hb
+  unfold statBlocks at hb
+  simp only [List.mem_append] at hb
+  rcases hb with ((hb | hb) | hb) | hb <;>
+  · split at hb
+    · rw [List.mem_singleton] at hb; subst hb
+      first | exact vfBitsF_lt _ | exact UInt64.toNat_lt _
+    · simp at hb
+
+theorem IsStat_apply (s : Sketch) (aux : DecAux) (ha : aux.stats = none) (b : Block)
+    (hb : (∃ x, b = .count x) ∨ (∃ x, b = .sum x) ∨ (∃ x, b = .min x) ∨ (∃ x, b = .max x)) :
+    Sketch.applyBlock s aux b = some (.ok (s, aux)) := by
+  cases aux with
+  | mk st =>
+    simp only at ha
+    subst ha
+    rcases hb with ⟨x, rfl⟩ | ⟨x, rfl⟩ | ⟨x, rfl⟩ | ⟨x, rfl⟩ <;> rfl
+
+/-- the plain decoder skips the statistics blocks -/
+theorem applyBlocks_statBlocks_none (st : Summary) (s : Sketch) (bl : List Block) :
+    Sketch.applyBlocks s { stats := none } (statBlocks st ++ bl) =
+      Sketch.applyBlocks s { stats := none } bl := by
+  have key : ∀ l : List Block,
+      (∀ b ∈ l, (∃ x, b = .count x) ∨ (∃ x, b = .sum x) ∨ (∃ x, b = .min x) ∨ (∃ x, b = .max x)) →
+      Sketch.applyBlocks s { stats := none } (l ++ bl) = Sketch.applyBlocks s { stats := none } bl := by
+    intro l hl
+    induction l with
+    | nil => rfl
+    | cons b l ih =>
+      simp only [List.cons_append, Sketch.applyBlocks,
+        IsStat_apply s { stats := none } rfl b (hl b (by simp))]
+      exact ih (fun c hc => hl c (by simp [hc]))
+  apply key
+  intro b hb
+  unfold statBlocks at hb
+  simp only [List.mem_append] at hb
+  rcases hb with ((hb | hb) | hb) | hb
+  · split at hb
+    · rw [List.mem_singleton] at hb; exact .inl ⟨_, hb⟩
+    · simp at hb
+  · split at hb
+    · rw [List.mem_singleton] at hb; exact .inr (.inl ⟨_, hb⟩)
+    · simp at hb
+  · split at hb
+    · rw [List.mem_singleton] at hb; exact .inr (.inr (.inl ⟨_, hb⟩))
+    · simp at hb
+  · split at hb
+    · rw [List.mem_singleton] at hb; exact .inr (.inr (.inr ⟨_, hb⟩))
+    · simp at hb
+
+theorem plain_skips_stats (st : Summary) (r : Sketch) (bl : List Block) (hwf : ∀ b ∈ bl, b.WF) :
+    Sketch.decodeAndMergeWith r (encBlocks (statBlocks st ++ bl)) =
+      Sketch.decodeAndMergeWith r (encBlocks bl) := by
+  have l1 := encBlocks_length_ge (statBlocks st ++ bl)
+  have l2 := encBlocks_length_ge bl
+  unfold Sketch.decodeAndMergeWith
+  rw [Sketch.decodeLoop_encBlocks _ (fun b hb => (List.mem_append.1 hb).elim (statBlocks_wf st b) (hwf b))
+      _ (by omega),
+    Sketch.decodeLoop_encBlocks bl hwf _ (by omega), applyBlocks_statBlocks_none]
+
+/-- the summary a fresh exact-summary sketch holds after decoding the four statistics blocks -/
+def restored (c S mn mx : Rat) : Summary :=
+  { count := .fin c, sum := .fin S, sumCompensation := .fin 0, simpleSum := .fin S,
+    min := .fin mn, max := .fin mx }
+
+theorem zero_add_exact (p : Rat) (h : F64.isRep p = true) : F64.add (.fin 0) (.fin p) = .fin p := by
+  have := F64.add_exact 0 p (by rwa [zero_add])
+  rwa [zero_add] at this
+
+theorem ofBits_toBits_nat (q : Rat) (h : F64.isRep q = true) :
+    F64.ofBits (UInt64.ofNat (F64.toBits (.fin q)).toNat) = .fin q := by
+  rw [UInt64.ofNat_toNat, F64.toBits_ofBits_rep q h]
+
+/-- the summary after the count block -/
+def afterCount (c : Rat) : Summary :=
+  { count := .fin c, sum := .fin 0, sumCompensation := .fin 0, simpleSum := .fin 0,
+    min := .pinf, max := .ninf }
+
+theorem stat_count (c : Rat) (hc : WOK c) :
+    Summary.new.addToCount (vfValue (Sketch.vfBits c)) = afterCount c := by
+  rw [vfValue_vfBits c hc]
+  simp only [Summary.addToCount, Summary.new, zero_add_exact c hc.1, afterCount]
+
+theorem stat_sum (c S : Rat) (hS : F64.isRep S = true) :
+    (afterCount c).addToSum (.fin S)
+      = { count := .fin c, sum := .fin S, sumCompensation := .fin 0, simpleSum := .fin S,
+          min := .pinf, max := .ninf } := by
+  simp only [Summary.addToSum, Summary.sumWithCompensation, afterCount, F64.sub_zero_exact S hS,
+    zero_add_exact S hS, F64.sub_self_fin]
+
+theorem stat_min (c S mn : Rat) (hc : F64.isRep c = true) (hS : F64.isRep S = true) :
+    ({ count := .fin c, sum := .fin S, sumCompensation := .fin 0, simpleSum := .fin S,
+       min := .pinf, max := .ninf } : Summary).add (.fin mn) (.fin 0) = restored c S mn mn := by
+  simp only [Summary.add, Summary.addToCount, Summary.addToSum, Summary.sumWithCompensation,
+    F64.mul_zero_fin, F64.add_zero_exact c hc, F64.add_zero_exact S hS, F64.sub_self_fin,
+    F64.sub_zero_exact 0 F64.isRep_zero, restored]
+  simp [F64.lt]
+
+theorem stat_max (c S mn mx : Rat) (hc : F64.isRep c = true) (hS : F64.isRep S = true)
+    (hle : mn ≤ mx) :
+    (restored c S mn mn).add (.fin mx) (.fin 0) = restored c S mn mx := by
+  simp only [Summary.add, Summary.addToCount, Summary.addToSum, Summary.sumWithCompensation,
+    F64.mul_zero_fin, F64.add_zero_exact c hc, F64.add_zero_exact S hS, F64.sub_self_fin,
+    F64.sub_zero_exact 0 F64.isRep_zero, restored]
+  have h1 : F64.lt (.fin mx) (.fin mn) = false := by simp [F64.lt, hle]
+  rw [h1]
+  simp only [Bool.false_eq_true, if_false]
+  by_cases h2 : mn < mx
+  · simp [F64.lt, h2]
+  · have : mn = mx := le_antisymm hle (not_lt.1 h2)
+    subst this
+    simp [F64.lt]
+
+/-- the statistics a summary must expose for its four blocks to restore it -/
+structure StatsOK (st : Summary) (c S mn mx : Rat) : Prop where
+  count : st.count = .fin c
+  cw : WOK c
+  cpos : 0 < c
+  sum : st.getSum = .fin S
+  sr : F64.isRep S = true
+  min : st.min = .fin mn
+  max : st.max = .fin mx
+  minr : F64.isRep mn = true
+  maxr : F64.isRep mx = true
+  le : mn ≤ mx
+
+theorem applyBlocks_statBlocks_some (st : Summary) (c S mn mx : Rat) (h : StatsOK st c S mn mx)
+    (s : Sketch) :
+    Sketch.applyBlocks s { stats := some Summary.new } (statBlocks st) =
+      some (.ok (s, { stats := some (restored c S mn mx) })) := by
+  obtain ⟨h1, hcw, hcpos, h2, hsr, h3, h4, hmnr, hmxr, hle⟩ := h
+  have e1 : F64.ne (.fin c) (.fin 0) = true := by simp [F64.ne, F64.eq, hcpos.ne']
+  have e3 : F64.ne (.fin mn) .pinf = true := rfl
+  have e4 : F64.ne (.fin mx) .ninf = true := rfl
+  unfold statBlocks
+  rw [h1, h2, h3, h4, e1, e3, e4]
+  simp only [if_true, vfBitsF_fin]
+  by_cases hS0 : S = 0
+  · have e2 : F64.ne (.fin S) (.fin 0) = false := by simp [F64.ne, F64.eq, hS0]
+    rw [e2]
+    have hz : afterCount c
+        = { count := .fin c, sum := .fin S, sumCompensation := .fin 0, simpleSum := .fin S,
+            min := .pinf, max := .ninf } := by
+      rw [hS0]; rfl
+    simp only [Bool.false_eq_true, if_false, List.append_nil, List.cons_append, List.nil_append,
+      Sketch.applyBlocks, Sketch.applyBlock, Option.map_some, stat_count c hcw,
+      ofBits_toBits_nat mn hmnr, ofBits_toBits_nat mx hmxr]
+    rw [hz, stat_min c S mn hcw.1 hsr, stat_max c S mn mx hcw.1 hsr hle]
+  · have e2 : F64.ne (.fin S) (.fin 0) = true := by simp [F64.ne, F64.eq, hS0]
+    rw [e2]
+    simp only [if_true, List.cons_append, List.nil_append,
+      Sketch.applyBlocks, Sketch.applyBlock, Option.map_some, stat_count c hcw,
+      ofBits_toBits_nat S hsr, ofBits_toBits_nat mn hmnr, ofBits_toBits_nat mx hmxr,
+      stat_sum c S hsr, stat_min c S mn hcw.1 hsr, stat_max c S mn mx hcw.1 hsr hle]
+
+/-- the exact-summary decoder on the bytes of `XSketch.encode` -/
+theorem xdecode_encBlocks (st : Summary) (c S mn mx : Rat) (hst : StatsOK st c S mn mx)
+    (r r' : Sketch) (bl : List Block) (hwf : ∀ b ∈ bl, b.WF)
+    (h : ∀ aux, Sketch.applyBlocks r aux bl = some (.ok (r', aux)))
+    (hm : r'.mapping.isNone = false) :
+    XSketch.decodeAndMergeWith { sk := r, st := Summary.new } (encBlocks (statBlocks st ++ bl)) =
+      some (.ok { sk := r', st := restored c S mn mx }) := by
+  have l1 := encBlocks_length_ge (statBlocks st ++ bl)
+  unfold XSketch.decodeAndMergeWith
+  simp only
+  rw [Sketch.decodeLoop_encBlocks _
+      (fun b hb => (List.mem_append.1 hb).elim (statBlocks_wf st b) (hwf b)) _ (by omega),
+    applyBlocks_append_ok _ _ _ _ _ _ (applyBlocks_statBlocks_some st c S mn mx hst r), h]
+  have hc : F64.eq (restored c S mn mx).count (.fin 0) = false := by
+    simp [restored, F64.eq, hst.cpos.ne']
+  simp only [hm, Bool.false_eq_true, if_false, Option.getD_some, hc, Bool.false_and]
+
+/-! ## a finite mapping `Equals` itself -/
+
+theorem tol_eq : F64.ofBits 0x3d719799812dea11
+    = .fin (4951760157141521 / 4951760157141521099596496896) := by decide +kernel
+
+theorem le_zero_round (x : Rat) (hx : 0 ≤ x) : F64.le (.fin 0) (F64.roundF64 x) = true := by
+  have h1 := F64.rv_nonneg hx
+  have hp := pow2_pos 1024
+  rw [F64.roundF64_eq]
+  split
+  · rfl
+  · rw [if_neg (by linarith)]
+    simp only [F64.le, F64.lt, F64.eq, Bool.or_eq_true, decide_eq_true_eq, beq_iff_eq]
+    rcases h1.lt_or_eq with h | h
+    · exact .inl h
+    · exact .inr h
+
+theorem withinTolerance_self (q : Rat) : MapId.withinTolerance (.fin q) (.fin q) = true := by
+  by_cases hq : q = 0
+  · subst hq; decide +kernel
+  · have he : F64.eq (.fin q) (.fin 0) = false := by simp [F64.eq, hq]
+    have hf0 : MapId.fabs (.fin 0) = .fin 0 := by decide +kernel
+    obtain ⟨a, ha, hfa⟩ : ∃ a : Rat, 0 ≤ a ∧ MapId.fabs (.fin q) = .fin a := by
+      unfold MapId.fabs
+      by_cases hneg : q < 0
+      · exact ⟨-q, by linarith, by simp [F64.lt, hneg, F64.neg]⟩
+      · exact ⟨q, not_lt.1 hneg, by simp [F64.lt, hneg]⟩
+    have hmax : MapId.fmaxF (.fin a) (.fin a) = .fin a := by
+      simp [MapId.fmaxF, F64.isNaN, F64.lt]
+    unfold MapId.withinTolerance
+    simp only [he, Bool.or_self, Bool.false_eq_true, if_false, F64.sub_self_fin, hf0, hfa, hmax,
+      tol_eq]
+    exact le_zero_round _ (mul_nonneg (by norm_num) ha)
+
+/-- gamma and offset are finite floats -/
+def MapFinite (m : MapId) : Prop := (∃ g, m.gamma = .fin g) ∧ ∃ o, m.indexOffset = .fin o
+
+theorem equals_self (m : MapId) (h : MapFinite m) : m.equals m = true := by
+  obtain ⟨⟨g, hg⟩, ⟨o, ho⟩⟩ := h
+  unfold MapId.equals
+  rw [hg, ho, withinTolerance_self, withinTolerance_self]
+  simp
+
+theorem accepts_self (m : MapId) (h : MapFinite m) : Accepts (some m) m :=
+  .inr ⟨m, rfl, equals_self m h⟩
+
+/-! ## decidable forms, for concrete instances -/
+
+/-- `Content.WF` as a boolean -/
+def wfb : Content → Bool
+  | [] => true
+  | p :: rest => decide (0 < p.2) && rest.all (fun q => decide (p.1 < q.1)) && wfb rest
+
+theorem wf_of_wfb (c : Content) (h : wfb c = true) : c.WF := by
+  induction c with
+  | nil => exact Content.wf_nil
+  | cons p rest ih =>
+    simp only [wfb, Bool.and_eq_true, decide_eq_true_eq, List.all_eq_true] at h
+    exact (Content.wf_cons p rest).2 ⟨h.1.1, h.1.2, ih h.2⟩
+
+instance (i : Int) : Decidable (Idx32 i) := by unfold Idx32; infer_instance
+instance (c : Content) : Decidable (Keys32 c) := by unfold Keys32; infer_instance
+
+/-! ### concrete dense stores: a window that is exactly the backing array -/
+
+/-- a dense store whose window `[minIndex, maxIndex]` is exactly its backing array, with checks
+    that are all decidable on a concrete instance -/
+structure ArrayStore (s : DStore) : Prop where
+  nn : ∀ x ∈ s.bins.toList, 0 ≤ x
+  cnt : s.count = s.bins.toList.sum
+  ne : s.count ≠ 0
+  size : 0 < s.bins.size
+  min : s.minIndex = s.offset
+  max : s.maxIndex = s.offset + s.bins.size - 1
+  first : 0 < at0 s.bins 0
+  last : 0 < at0 s.bins (s.bins.size - 1)
+  lo : minInt32 ≤ s.offset
+  hi : s.offset + s.bins.size - 1 ≤ maxInt32
+  wok : ∀ x ∈ s.bins.toList, WOK x
+
+theorem at0_mem_or (a : Array Rat) (j : Int) : at0 a j = 0 ∨ at0 a j ∈ a.toList := by
+  unfold DStore.at0
+  split
+  · rename_i h
+    right
+    have hlt : j.toNat < a.size := by omega
+    simp [Array.getD_eq_getD_getElem?, hlt]
+  · left; rfl
+
+theorem ArrayStore.at0_nonneg {s : DStore} (h : ArrayStore s) (j : Int) : 0 ≤ at0 s.bins j := by
+  rcases at0_mem_or s.bins j with h0 | h0
+  · rw [h0]
+  · exact h.nn _ h0
+
+theorem ArrayStore.outside {s : DStore} (h : ArrayStore s) (i : Int)
+    (hi : i < s.minIndex ∨ s.maxIndex < i) : wt s i = 0 := by
+  unfold DStore.wt
+  apply DStore.at0_out
+  have := h.min
+  have := h.max
+  omega
+
+theorem ArrayStore.wt_wok {s : DStore} (h : ArrayStore s) (j : Int) : WOK (wt s j) := by
+  unfold DStore.wt
+  rcases at0_mem_or s.bins (j - s.offset) with h0 | h0
+  · rw [h0]; exact wOK_zero
+  · exact h.wok _ h0
+
+theorem ArrayStore.bounded32 {s : DStore} (h : ArrayStore s) : DStore.Bounded32 s := by
+  intro j hj
+  have : 0 ≤ j - s.offset ∧ j - s.offset < s.bins.size := by
+    apply Classical.byContradiction
+    intro hc
+    exact hj (DStore.at0_out _ _ hc)
+  have := h.lo
+  have := h.hi
+  omega
+
+theorem ArrayStore.tight32 {s : DStore} (h : ArrayStore s) : DStore.Tight32 s := by
+  intro _
+  have h1 := h.first
+  have h2 := h.last
+  have := h.lo
+  have := h.hi
+  refine ⟨?_, ?_, by rw [h.min]; exact h.lo, by rw [h.max]; exact h.hi⟩
+  · unfold DStore.wt; rw [h.min, Int.sub_self]; exact h1
+  · unfold DStore.wt; rw [h.max]
+    rw [show s.offset + (s.bins.size : Int) - 1 - s.offset = (s.bins.size : Int) - 1 by omega]
+    exact h2
+
+theorem ArrayStore.inv {s : DStore} (h : ArrayStore s) (hk : s.kind = .plain) : DStore.Inv s where
+  plain := hk
+  nonneg := h.at0_nonneg
+  countEq := h.cnt
+  empty := fun h0 => absurd h0 h.ne
+  window := fun _ => by
+    have := h.size
+    have t := h.tight32 h.ne
+    refine ⟨by rw [h.min], by rw [h.min, h.max]; omega,
+      by rw [h.max]; unfold DStore.len; omega, .inl t.1, .inl t.2.1⟩
+  outside := h.outside
+
+theorem ArrayStore.invLow {s : DStore} (h : ArrayStore s) (N : Nat) (hk : s.kind = .low N)
+    (hN : s.bins.size ≤ N) (hc : s.isCollapsed = false) : DStore.InvLow N s where
+  kind := hk
+  hN := by have := h.size; omega
+  nonneg := h.at0_nonneg
+  countEq := h.cnt
+  empty := fun h0 => absurd h0 h.ne
+  window := fun _ => by
+    have := h.size
+    exact ⟨by rw [h.min], by rw [h.min, h.max]; omega,
+      by rw [h.max]; unfold DStore.len; omega⟩
+  outside := h.outside
+  lenLe := hN
+  collapsed := fun hcc => by rw [hc] at hcc; exact absurd hcc (by decide)
+
+theorem ArrayStore.invHigh {s : DStore} (h : ArrayStore s) (N : Nat) (hk : s.kind = .high N)
+    (hN : s.bins.size ≤ N) (hc : s.isCollapsed = false) : DStore.InvHigh N s where
+  kind := hk
+  hN := by have := h.size; omega
+  nonneg := h.at0_nonneg
+  countEq := h.cnt
+  empty := fun h0 => absurd h0 h.ne
+  window := fun _ => by
+    have := h.size
+    exact ⟨by rw [h.min], by rw [h.min, h.max]; omega,
+      by rw [h.max]; unfold DStore.len; omega⟩
+  outside := h.outside
+  lenLe := hN
+  collapsed := fun hcc => by rw [hc] at hcc; exact absurd hcc (by decide)
+
+/-- the checks of `ArrayStore`, as one boolean -/
+def arrayStoreB (s : DStore) : Bool :=
+  s.bins.toList.all (fun x => decide (0 ≤ x)) && decide (s.count = s.bins.toList.sum) &&
+  decide (s.count ≠ 0) && decide (0 < s.bins.size) && decide (s.minIndex = s.offset) &&
+  decide (s.maxIndex = s.offset + s.bins.size - 1) && decide (0 < at0 s.bins 0) &&
+  decide (0 < at0 s.bins (s.bins.size - 1)) && decide (minInt32 ≤ s.offset) &&
+  decide (s.offset + s.bins.size - 1 ≤ maxInt32) && s.bins.toList.all (fun x => decide (WOK x))
+
+theorem arrayStore_of_b (s : DStore) (h : arrayStoreB s = true) : ArrayStore s := by
+  simp only [arrayStoreB, Bool.and_eq_true, decide_eq_true_eq, List.all_eq_true] at h
+  obtain ⟨⟨⟨⟨⟨⟨⟨⟨⟨⟨h1, h2⟩, h3⟩, h4⟩, h5⟩, h6⟩, h7⟩, h8⟩, h9⟩, h10⟩, h11⟩ := h
+  exact ⟨h1, h2, h3, h4, h5, h6, h7, h8, h9, h10, h11⟩
+
+/-- the content of an `ArrayStore` is any canonical content with the same pointwise weights -/
+theorem ArrayStore.refines {s : DStore} (h : ArrayStore s) (hk : s.kind = .plain) (c : Content)
+    (hc : c.WF) (hl : ∀ j, c.lookup j = wt s j) : (Store.d s).Refines c := by
+  obtain ⟨c', hr, hl'⟩ := Store.refines_dense s (h.inv hk) h.bounded32
+  have : c' = c := Content.ext _ _ hr.wf hc (fun j => by rw [hl', hl])
+  rw [← this]; exact hr
+
+/-! ### concrete paginated stores: a buffer and no page -/
+
+theorem line_buffer_only (b : List Int) (t : Nat) (j : Int) :
+    ({ PStore.new with buffer := b, trigger := t } : PStore).line j = 0 := by
+  unfold PStore.line
+  rw [PStore.pageAt_of_allEmpty _ (by intro k; simp [PStore.new])]
+  simp
+
+theorem pagOK_buffer_only (b : List Int) (t : Nat) (hb : ∀ x ∈ b, Idx32 x)
+    (hlen : b.length < 2 ^ 53) : PagOK { PStore.new with buffer := b, trigger := t } where
+  inv := PStore.inv_with_buffer _ PStore.inv_new b t hb
+  bufLen := by
+    show b.length < W64
+    unfold W64; omega
+  wok := fun j k hk => by
+    rw [line_buffer_only, zero_add]
+    apply wOK_nat
+    have : List.count j b ≤ b.length := List.count_le_length
+    change k ≤ List.count j b at hk
+    omega
+
+theorem content_buffer_only (b : List Int) (t : Nat) (hb : ∀ x ∈ b, Idx32 x) :
+    PStore.content { PStore.new with buffer := b, trigger := t } = Content.merge [] (units b) := by
+  apply PStore.content_eq_of_lookup _ (PStore.inv_with_buffer _ PStore.inv_new b t hb)
+  · apply Content.wf_merge_of_nonneg _ _ Content.wf_nil
+    intro p hp
+    rw [(PStore.mem_units hp).2]; norm_num
+  · intro j
+    unfold PStore.wt
+    rw [line_buffer_only, Content.lookup_merge]
+    unfold units
+    rw [PStore.lookup_map_const]
+    simp
 
 end RoundTrip
 end DDS
